@@ -45,6 +45,7 @@ func main() {
 	dumpLayout := flag.String("dump-layout", "", "write the extracted wire layout reference to this file")
 	replay := flag.String("replay", "", "replay a violation file")
 	list := flag.Bool("list", false, "list registered properties")
+	dumpGuards := flag.String("dump-guards", "", "debug: print the guards collected from this entry point")
 	flag.Parse()
 	// go/packages resolves "go" through this process's PATH: force the toolchain that satisfies /repo's go directive
 	os.Setenv("PATH", "/opt/veriftools/go1.26.8/bin:"+os.Getenv("PATH"))
@@ -92,6 +93,23 @@ func main() {
 		if err := dumpLayoutRef(p, *dumpLayout); err != nil {
 			fmt.Println(err)
 			os.Exit(2)
+		}
+		return
+	}
+	if *dumpGuards != "" {
+		p, err := Load(LoadConfig{Repo: *repo, GOARCH: *arch})
+		if err != nil {
+			fmt.Println("load:", err)
+			os.Exit(2)
+		}
+		ge := NewGuardEngine(p, 8)
+		gs, ok := ge.EntryGuards(*dumpGuards)
+		if !ok {
+			fmt.Println("entry not found")
+			os.Exit(2)
+		}
+		for _, g := range gs {
+			fmt.Printf("%s  %s\n    via %s\n", p.Pos(g.Pos), g.String(), strings.Join(g.Chain, " > "))
 		}
 		return
 	}
